@@ -207,13 +207,14 @@ Definition first_line (s : list N) : list N :=
 (* the line after the scalar: less indented than the content and not part of it.
    Under a collection of indentation p: at most p spaces (a sibling or an outer node), or a comment less indented
    than the content once there is content (l-trail-comments).  At top level: a document marker at column 0, or
-   such a comment. *)
+   such a comment.  The line starts with a character of YAML text (not a tab, and not NUL, which no YAML stream
+   contains and which the scanner cannot tell from the end of the input). *)
 Definition rest_ok (parent : option nat) (n : nat) (text : bool) (r : list N) : bool :=
   let '(j, t) := strip_spaces O (first_line r) in
   match t with
   | [] => false
   | c :: _ =>
-      negb (c =? 9) &&
+      negb (c =? 9) && negb (c =? 0) &&
       (((c =? 35) && Nat.ltb j n && text) ||
        match parent with
        | Some p => Nat.leb j p
